@@ -89,11 +89,14 @@ def run(run):
     run.trusted = [
         "Coq 8.16.1 kernel; vm_compute evaluates Model.Dump.ingest (on Model.Store) on the dump's page list",
         "axioms: none",
-        "model coq/Model/Dump.v tied to dumpparser.py by comparing the stored rows; lxml/bz2 and _template_to_body are glue under "
-        "the diff (the model is given the body _template_to_body produced; the oracle knows the includable part by construction)",
+        "model coq/Model/Dump.v (with Model/Body.template_to_body for template bodies) tied to dumpparser.py by comparing the stored rows; lxml/bz2 are glue under "
+        "the diff (the oracle knows the includable part of a template body by construction; the model computes it)",
         "namespace table regenerated from data/en/namespaces.json",
     ]
     run.prove()
+    rc, out = lib.coq_make(["Model/Body.vo", "Model/Dump.vo"])
+    if rc != 0:
+        run.correspondence_break("Model/Body.v or Model/Dump.v does not build", None, error=out[-1500:])
     n = 250 if run.tier == "quick" else 6000
     cases = [gen_dump(run.rng) for _ in range(n)]
     res = lib.run_impl("c12", [{"pages": c["pages"], "nsset": c["nsset"]} for c in cases], shards=lib.NCPU)
@@ -114,14 +117,12 @@ def run(run):
                 kind = "main-prefix-merged"
             run.property_failure("c12:%s" % kind, "stored rows %s differ from the selected pages %s"
                                  % (json.dumps(got, ensure_ascii=False)[:600], json.dumps(want, ensure_ascii=False)[:600]), c)
-        # model: feed the template bodies as the implementation reduced them (includable part known by construction)
-        mcase = {"nsset": c["nsset"], "pages": [dict(p, text=(p["includable"] if p["ns"] == 10 and p["redirect"] is None else p["text"]))
-                                                for p in c["pages"]]}
-        coq_cases.append(coq_case(mcase, r["rows"]))
+        # model: the raw page texts; the template bodies are reduced by Model.Body.template_to_body inside the model
+        coq_cases.append(coq_case(c, r["rows"]))
         idx.append(i)
     bad, errs = lib.coq_eval_failing(
-        "c12", ["Base.Str", "Model.Store", "Model.Dump"], "list Z * list dpage * list row", coq_cases,
-        "fun '(ns, dump, rows) => rows_same (ingest nstbl 10%Z (fun b => b) ns dump) rows",
+        "c12", ["Base.Str", "Model.Store", "Model.Dump", "Model.Body"], "list Z * list dpage * list row", coq_cases,
+        "fun '(ns, dump, rows) => rows_same (ingest nstbl 10%Z template_to_body ns dump) rows",
         extra_defs="Open Scope N_scope.\n" + c10.ns_table_coq(), chunk=60)
     for e in errs:
         run.correspondence_break("model evaluation failed", None, error=e)
